@@ -74,4 +74,16 @@ theorem cardinal_value_now (n : Int) (hn : n.natAbs < 10 ^ 66) :
   have : (1000 : Nat) ^ 22 = 10 ^ 66 := by decide +kernel
   omega
 
+/-! ## character names (character.go `specialCharacters`): what `#\` syntax, ~:C and ~@C print -/
+
+/-- the name the code's table gives a code point (without the `#\` the entries start with) -/
+def codeCharName? (c : Nat) : Option Txt := (specialCharacters.lookup c).map (fun t => t.drop 2)
+
+/-- every entry starts with `#\`; for every code point below 256 the code's table names exactly the characters
+    the model names, with the same names (Backspace Tab Newline Page Return Space Rubout); no entry lies above -/
+theorem character_names_documented :
+    specialCharacters.all (fun p => p.2.take 2 == [35, 92]) = true
+    ∧ (List.range 256).all (fun c => codeCharName? c == charName? c) = true
+    ∧ specialCharacters.all (fun p => p.1 < 256) = true := by decide +kernel
+
 end SlipVerif.Theorems.GenC15
